@@ -34,6 +34,7 @@ func boot() {
 func main() {
 	a := hx.Args()
 	boot()
+	opsPath = a["ops"]
 	out, err := hx.NewOut(a["ops"], a["obs"])
 	if err != nil {
 		panic(err)
@@ -462,6 +463,95 @@ type Found struct {
 // runSearch executes one transaction per block and checks the property directly on the
 // implementation: the sum of all balances must not grow, and may shrink only when the
 // transaction locks stake or can reach a SELFDESTRUCT.
+var opsPath string
+
+// streamLines returns the op lines [from, to) this process has emitted so far (the ops file is flushed per line):
+// the exact, replayable history of a session, including `set`, `cfg` and `refund` lines issued between transactions.
+func streamLines(from, to int) []string {
+	bs, err := os.ReadFile(opsPath)
+	if err != nil {
+		return nil
+	}
+	ls := strings.Split(strings.TrimRight(string(bs), "\n"), "\n")
+	if to > len(ls) {
+		to = len(ls)
+	}
+	if from > to {
+		from = to
+	}
+	return append([]string{}, ls[from:to]...)
+}
+
+func annotate(w *World, qs []*QTx) {
+	for _, q := range qs {
+		if q.isCt {
+			q.mayBurn = ctMayBurn(w, q)
+			q.canUnstake = ctHas(w, q, "ustk")
+			q.unstakeSum = ctSum(w, q, "ustk")
+			q.canRevert = ctHas(w, q, "rv") || ctHas(w, q, "iv")
+		}
+	}
+}
+
+var attrSeq int
+
+// attribute re-executes a multi-transaction block one transaction at a time on a private copy of the world
+// (rebuilt from the session's own op lines) and classifies every transaction's own delta. ok = the per-transaction
+// deltas add up to the block's delta, i.e. the transactions did not interact; only then are the per-transaction keys
+// used instead of the block-level key.
+func attribute(w *World, pre, block []string, blockDelta *big.Int) (keys []string, descs []string, ok bool) {
+	attrSeq++
+	out2, err := hx.NewOut(fmt.Sprintf("attr-%d.ops", attrSeq%4), fmt.Sprintf("attr-%d.obs", attrSeq%4))
+	if err != nil {
+		return nil, nil, false
+	}
+	defer func() {
+		out2.Close()
+		setCurWorld(w)
+		common.SetBlockHeight(w.height)
+	}()
+	w2 := NewWorld(out2)
+	sum := new(big.Int)
+	failed := false
+	run := func() {
+		for _, line := range pre {
+			if line == "exec" {
+				if r := w2.Exec(); r.Panic != "" {
+					failed = true
+				}
+			} else {
+				replayOne(w2, line)
+			}
+		}
+		for _, line := range block {
+			switch {
+			case line == "exec":
+			case strings.HasPrefix(line, "tx "):
+				replayOne(w2, line)
+				qs := append([]*QTx{}, w2.queue...)
+				annotate(w2, qs)
+				r := w2.Exec()
+				if r.Panic != "" || len(qs) != 1 {
+					failed = true
+					continue
+				}
+				d := new(big.Int).Sub(r.WAfter, r.WBefore)
+				sum.Add(sum, d)
+				if k := classify(qs, r); k != "" {
+					keys = append(keys, k)
+					descs = append(descs, fmt.Sprintf("balances+escrow+stake changed by %s wei over the transaction (%s): %s", d.String(), r.Statuses, line))
+				}
+			default:
+				replayOne(w2, line)
+			}
+		}
+	}
+	if p := hx.Guard(func() string { run(); return "" }); p != "" {
+		return nil, nil, false
+	}
+	return keys, descs, !failed && sum.Cmp(blockDelta) == 0
+}
+
 func runSearch(g *Gen, n int, stats map[string]interface{}) {
 	w := g.w
 	found := map[string]bool{}
@@ -479,6 +569,7 @@ func runSearch(g *Gen, n int, stats map[string]interface{}) {
 			w.fork = forkPoints[1+(sess/2)%(len(forkPoints)-1)]
 		}
 		sess++
+		sessionStart := w.out.N
 		w.Reset(true)
 		history = history[:0]
 		withContracts := g.r.Chance(3, 4)
@@ -490,6 +581,7 @@ func runSearch(g *Gen, n int, stats map[string]interface{}) {
 		for b := 0; b < nb && evals < n; b++ {
 			k := g.r.Pick(1, 2, 2, 3)
 			w.refreshFlags(w.height+1, w.height)
+			blockMark := w.out.N
 			for i := 0; i < k; i++ {
 				switch {
 				case g.r.Chance(1, 6):
@@ -501,15 +593,9 @@ func runSearch(g *Gen, n int, stats map[string]interface{}) {
 				}
 			}
 			qs := append([]*QTx{}, w.queue...)
-			for _, q := range qs {
-				if q.isCt {
-					q.mayBurn = ctMayBurn(w, q)
-					q.canUnstake = ctHas(w, q, "ustk")
-					q.unstakeSum = ctSum(w, q, "ustk")
-					q.canRevert = ctHas(w, q, "rv") || ctHas(w, q, "iv")
-				}
-			}
+			annotate(w, qs)
 			res := w.Exec()
+			blockEnd := w.out.N
 			evals++
 			var lines []string
 			for i, q := range qs {
@@ -540,10 +626,27 @@ func runSearch(g *Gen, n int, stats map[string]interface{}) {
 					d = new(big.Int).Sub(new(big.Int).Sub(wa, wb), rw)
 				}
 			}
+			_ = setupLines
+			if key != "" && len(qs) > 1 && key != "after-block-wealth-mismatch" {
+				// attribute the block's delta to its transactions: a known-finding transaction next to harmless failing
+				// ones must yield only the known key, a transaction that itself changes the total keeps its own key
+				pk, pd, ok := attribute(w, streamLines(sessionStart, blockMark), streamLines(blockMark, blockEnd), d)
+				if ok {
+					for i := range pk {
+						if !found[pk[i]] {
+							found[pk[i]] = true
+							f := Found{Key: pk[i], Desc: pd[i], Replay: streamLines(sessionStart, blockEnd)}
+							bs, _ := json.Marshal(f)
+							fmt.Println("FOUND " + string(bs))
+						}
+					}
+					key = ""
+				}
+			}
 			if key != "" && !found[key] {
 				found[key] = true
 				f := Found{Key: key, Desc: fmt.Sprintf("balances+escrow+stake changed by %s wei over one block (%s): %s", d.String(), res.Statuses, strings.Join(lines, " | ")),
-					Replay: append(append([]string{}, setupLines...), history...)}
+					Replay: streamLines(sessionStart, w.out.N)}
 				bs, _ := json.Marshal(f)
 				fmt.Println("FOUND " + string(bs))
 			}
@@ -575,7 +678,8 @@ func classify(qs []*QTx, res BlockResult) string {
 				canRevert = true
 			}
 		}
-		if q.feat["negvalue"] {
+		if q.feat["negvalue"] && (ok || !res.P002) {
+			// a rejected negative-value transaction moves nothing once reverts restore balances (Proposal002)
 			neg = true
 		}
 		if q.feat["miner"] {
